@@ -9,6 +9,18 @@ CLAIMED = {
                 note="bounded: 3 keys x 2 values, capacities 1..4 (quick) / 1..6 (thorough), <=5/7 calls exhaustively; larger capacities by recorded runs only. Trusts the transcription of the LRU/LFU/SLRU definitions in Cache.tla.",
                 ref="5/C15, 4.4"),
 }
+ENV_TECH = "TLA+ model of the key protocol (Envelope.tla, PlusCal) checked by TLC; TLC-generated behaviours replayed on real factories; recorded real traces judged by the TLA+ monitor EnvelopeObs.tla under TLC"
+ENV_NOTE = "bounded (<=2 processes, <=2 partitions, small clock, <=6 generated keys); fake metastore/KMS stand for real backends; virtual clock via build overlay; time bounds judged against operation start; AES-GCM trusted"
+def env(text, ref):
+    return dict(engine="envelope", technique=ENV_TECH, text=text, note=ENV_NOTE, ref=ref)
+CLAIMED.update({
+    "C01": env("Every reachable state of the protocol model is explored by TLC with RoundTrip/ChainClosed as invariants; every operation-return transition (sampled) is re-enacted on real factories (all cache configurations, 5 key-cache policies, session cache) and the monitor checks on the real trace that every decrypt of an own-partition record returns the original bytes, inputs unmodified, after any rotation / revocation / restart / eviction the model can reach.", "5/C01"),
+    "C02": env("TLC enumerates every position and kind of metastore/KMS fault (up to two per operation) on cold, warm and expired states in the model; each faulted behaviour is re-enacted with the fault injected at that call; the monitor checks on the real trace that a returned record's chain is in the authoritative table at that moment with the same key bytes, that a brand-new factory decrypts it, and that a fault-free operation succeeds.", "5/C02"),
+    "C04": env("TLC explores clock histories across key expiry (incl. coarse creation-stamp precision) with NoExpiredIK / NoIKUnderExpiredSK / ParentExpiryBounded as model invariants; behaviours are re-enacted with the virtual clock and the monitor applies the same clauses to the real records and metastore writes.", "5/C04"),
+    "C05": env("TLC explores every placement of an operator revocation (IK or SK) relative to cache fill for per-session, shared, session-cached and uncached configurations; behaviours are re-enacted with the revocation applied to the fake store under live real sessions; the monitor bounds which key the next real encrypt names (R for IK, 2R for SK).", "5/C05"),
+    "C14": env("TLC enumerates the interleavings of two processes at the granularity of single metastore/KMS calls (exhaustive from cold, simulation from expired/revoked starts); each schedule is imposed on two real factories through a gate on the fake metastore/KMS; the monitor checks every returned record against the authoritative table (same key bytes, parent present), that no row is ever overwritten, and that a fresh factory decrypts it.", "5/C14"),
+    "C20": env("The monitor tracks, per cache scope, when each key record was last fetched and requires zero external calls inside the revoke-check interval, a re-read after it, at most one KMS unwrap of a valid SK per factory per interval, and reads on every call when caching is off; TLC generates the tick placements around the interval boundary and the model carries ZeroCallsWhenFresh as an invariant.", "5/C20"),
+})
 PENDING = {}
 
 def main():
